@@ -169,7 +169,13 @@ void h_header_roundtrip(void)
 	VERIF_ASSERT(region_hdr_write(&ST1, 0, IN.blockmax, IN.info_has_rehash, (void *)1) == 0, "the header writer completes");
 	VERIF_ASSERT(g_n >= 1 && g_kind[0] == 5 && g_val[0] == 12, "the file starts with the 12-byte signature");
 	VERIF_ASSERT(g_raw[0][0] == 'S' && g_raw[0][6] == 'T' && g_raw[0][8] == '\n' && g_raw[0][9] == 3 && g_raw[0][10] == 0 && g_raw[0][11] == 0, "signature bytes");
-	VERIF_ASSERT(g_raw[0][7] == (newer ? '3' : '2'), "format 2, which the reference version reads, is written exactly while no newer feature (hash size, split parity) is in use");
+	VERIF_ASSERT(!newer || g_raw[0][7] == '3', "format 3 is written whenever a feature that format 2 cannot record (hash size, split parity) is in use");
+#ifdef VERIF_PIN_FORMAT
+	/* C16 only ("the content encoding is bit-for-bit stable"): the reference version writes format 2 in every other case */
+	VERIF_ASSERT(newer || g_raw[0][7] == '2', "format 2, which the reference version writes and older versions read, is kept while no newer feature is in use");
+#else
+	VERIF_ASSERT(g_raw[0][7] == '2' || g_raw[0][7] == '3', "a known format");
+#endif
 	/* the reader: either the configured values or none (-C) */
 	ST2.no_conf = IN.no_conf != 0;
 	ST2.block_size = IN.no_conf ? 0 : IN.block_size;
